@@ -92,7 +92,7 @@ def build_and_audit(prop_id: str, clean: bool = False, leanchecker: bool = False
         if clean:
             run(["lake", "clean"])
         mods = [f"Tfv.Props.{m}" for m in prop_modules(prop_id)] or [f"Tfv.Props.{prop_id}"]
-        r = run(["lake", "build"] + mods + ["tfv-driver"])
+        r = run(["lake", "build"] + mods + ["tfv-driver", "tfv-inv"])
         res["log"] = r.stdout[-6000:]
         if r.returncode != 0:
             res["ok"] = False
@@ -155,8 +155,8 @@ def driver_path() -> str:
     return os.path.join(LEAN, ".lake", "build", "bin", "tfv-driver")
 
 
-def run_driver(lines: list[str], timeout=1800) -> list[str]:
-    p = subprocess.run([driver_path()], input="\n".join(lines) + "\n", stdout=subprocess.PIPE,
+def run_driver(lines: list[str], timeout=1800, exe=None) -> list[str]:
+    p = subprocess.run([exe or driver_path()], input="\n".join(lines) + "\n", stdout=subprocess.PIPE,
         stderr=subprocess.PIPE, text=True, timeout=timeout)
     if p.returncode != 0:
         raise RuntimeError(f"driver exited {p.returncode}: {p.stderr[-500:]}")
